@@ -211,7 +211,7 @@ func genRound(o *hx.Out, r *prng.R, s *scen, senders []*acct, committee *acct, n
 }
 
 func runProposal(f *hx.Flags, o *hx.Out) {
-	n := f.N(160, 1500)
+	n := f.N(160, 3000)
 	for k := 0; k < n; k++ {
 		if !f.Want(k) {
 			continue
